@@ -437,13 +437,16 @@ def cloneL (E : Env) (oSrc oDst : Nat) (arg : Option CopyMode) (all : Bool) :
 traits is copyable gets every trait copied, transient ones included. -/
 def copiesAll (slots : List Slot) : Bool := !(slots.any (fun sl => sl.decl.copyable))
 
-/-- `obj.clone_traits(copy=arg)`; `copy.deepcopy(obj)` is `clone_traits` with
-`copy=memo.get("traits_copy_mode")`, i.e. `None` at top level (has_traits.py:1686-1693). -/
+/-- `obj.clone_traits(copy=arg)`. -/
 def cloneTraits (E : Env) (s : Obj) (o' : Nat) (arg : Option CopyMode) (n : Nat) : Copied :=
   let r := cloneL E s.oid o' arg (copiesAll s.slots) n s.slots
   ⟨⟨o', r.1⟩, ⟨s.oid, r.2.1⟩, r.2.2⟩
 
-def deepcopyObj (E : Env) (s : Obj) (o' : Nat) (n : Nat) : Copied := cloneTraits E s o' none n
+/-- `copy.deepcopy(obj)`: `__deepcopy__` calls `clone_traits` with
+`copy=memo.get("traits_copy_mode", "deep")`, i.e. `'deep'` when `copy.deepcopy`
+is the outermost call (has_traits.py:1686-1693, as repaired by 50c4e1f; before
+it the default was None - "copy reference" - finding F70). -/
+def deepcopyObj (E : Env) (s : Obj) (o' : Nat) (n : Nat) : Copied := cloneTraits E s o' (some .deep) n
 
 /-! ## Container mutation (what "live" means)
 
